@@ -13,7 +13,7 @@
 From Coq Require Import ZArith NArith List Bool.
 From PydoctorVerif Require Import Base.Sexp Model.Registry Spec.RegistryInv
      Proofs.RegistryBase Proofs.RegistryProofs Proofs.RegistryReparent Proofs.RegistryHistory Proofs.RegistryDerived
-     Proofs.RegistryWitness.
+     Proofs.RegistryFuel Proofs.RegistryWitness.
 Import ListNotations.
 Local Open Scope N_scope.
 
@@ -47,6 +47,16 @@ Proof. exact inv_root_of. Qed.
 Theorem C02_inv_self_lookup :
   forall s o, Inv s -> reg s o -> exists p, fullpath s o = Some p /\ rget p (allobj s) = Some o.
 Proof. intros s o HI Ho. exact (reg_self s HI o Ho). Qed.
+
+(* The fuelled loops do not run out of fuel in a state that satisfies Inv: the walk down `contents` from a registered
+   object (System._remove, readd, Documentable._handle_reparenting_pre and _post) terminates with the fuel at hand,
+   and handleDuplicate's `while fullName + ' ' + str(i) in allobjects` finds a free index within len(allobjects)+1
+   tries.  (fullName's walk up: clause I1 of Inv.)  What remains inside `step = None` are Python exceptions. *)
+Theorem C02_fuel_walk_down : forall s a, Inv s -> reg s a -> exists T, subtree s a = Some T.
+Proof. exact subtree_total. Qed.
+Theorem C02_fuel_free_index :
+  forall (m : registry) fn, exists i, find_free (S (length m)) (fun i => key_in (dup_key fn i) m) 0 = Some i.
+Proof. exact find_free_total. Qed.
 
 (* The executable guards imply the guards (so that `guarded` histories can be recognised by computation). *)
 Theorem C02_guard_b_sound : forall s o, Inv s -> guard_b s o = true -> guard s o.
